@@ -27,6 +27,15 @@ pub fn extra_instrs() -> Vec<String> {
         "push.255.256.65535.65536.4294967295.4294967296", "exec.lp", "call.lp", "procref.lp",
         "locaddr.0", "loc_load.1", "loc_loadw.0", "loc_store.1", "loc_storew.0", "debug.local",
         "debug.local.1", "debug.local.0.1",
+        // parameter boundaries of the instructions that carry u8 / u16 / u32 parameters
+        "debug.stack.1", "debug.stack.255", "debug.stack.256", "debug.stack.300", "debug.stack.65535",
+        "debug.mem.255", "debug.mem.256", "debug.mem.65536", "debug.mem.4294967295", "debug.mem.255.256",
+        "debug.mem.65535.65536", "debug.mem.0.4294967295", "debug.local.255", "debug.local.256", "debug.local.65535",
+        "debug.local.255.256", "debug.local.0.65535", "emit.0", "emit.255", "emit.256", "emit.65536", "emit.4294967295",
+        "trace.0", "trace.255", "trace.256", "trace.65536", "trace.4294967295",
+        "adv.push_mapval.0", "adv.push_mapval.3", "adv.push_mapvaln.3", "adv.insert_hdword.0", "adv.insert_hdword.255",
+        "adv_push.2", "adv_push.15", "mem_load.255", "mem_load.256", "mem_load.65536", "mem_storew.65535",
+        "loc_load.255", "loc_store.256", "loc_loadw.65535", "locaddr.65535",
         "call.0x0000000000000000000000000000000000000000000000000000000000000001",
     ]
     .iter()
